@@ -120,6 +120,7 @@ class Monitor:
         self.op_raised = {}
         self.tmpdir = None
         self.undriven_args = set()
+        self.templates = {}
 
 
 M = Monitor()
@@ -349,6 +350,7 @@ def judge_wellformed(opname, self, args, entries, note):
             if kind in seen_kinds:
                 continue
             seen_kinds.add(kind)
+            msg = '; '.join(m for k2, m, _ in probs if k2 == kind)
             short, clause = CLAUSE_TEXT[kind]
             ctx.violation(f'C19/{op_key(opname, e["ordinal"])}-{short}', clause, {
                 'class': type(self).__name__, 'op': opname, 'public': list(M.hub.public or ()),
@@ -367,6 +369,8 @@ def differential(opname, fn, self, args, frame):
     slots = enumerate_slots(self, args)
     if not slots:
         judge_wellformed(opname, self, args, direct, 'as issued (the operation has no data position)')
+        for e in direct:
+            M.templates.setdefault(op_key(opname, e['ordinal']), e['text'] if isinstance(e['text'], str) else repr(e['text']))
         return
     benign = {path: f'bv{i}' for i, (_, path, _) in enumerate(slots)}
     r0, err0 = run_twin(opname, fn, self, args, frame, benign)
@@ -375,6 +379,8 @@ def differential(opname, fn, self, args, frame):
         judge_wellformed(opname, self, args, direct, 'as issued (baseline twin diverged: %s)' % err0)
         return
     toks0 = judge_wellformed(opname, self, args, r0, 'benign baseline (bv0, bv1, ... in every data position)')
+    for e in r0:
+        M.templates.setdefault(op_key(opname, e['ordinal']), e['text'] if isinstance(e['text'], str) else repr(e['text']))
     idents = {k: (v if isinstance(v, (str, int, bool)) or v is None else
                   (sorted(map(str, v)) if isinstance(v, dict) else repr(v)))
               for k, v in args.items() if k in IDENT_ARGS}
@@ -707,6 +713,8 @@ def drive_generic(env, g, b, h):
     call(g, 'update_node_properties', node_id=b['server'], props={})
     call(g, 'unset_node_property', node_id=pick_id(env, allids), prop_name=rng.choice([A.PROP_DETAILS, 'Custom_1']))
     call(g, 'unset_node_property', node_id=b['server'], prop_name=A.PROP_NAME)      # refused: NO_UNSET
+    call(g, 'update_nodes_property', prop_name=rng.choice(['Custom_3', A.PROP_DETAILS]), prop_val=v('all'))
+    call(h, 'update_nodes_property', prop_name=A.PROP_STRUCTURAL_INFO, prop_val=json.dumps({'adm_graph_ids': [v('adm')]}))
     # link property updates
     fac = b['nodes'][-1]
     call(g, 'update_link_property', node_a=b['switch'], node_b=fac, kind=A.REL_HAS, prop_name='Weight', prop_val=v('w'))
@@ -856,7 +864,7 @@ def drive_arm_adm_cbm(env, arm, b, d1, d2, want):
     try:
         pools = Pools(atype=DelegationType.CAPACITY)
         pool = Pool(atype=DelegationType.CAPACITY, pool_id=v('pool'), delegation_id=d1, defined_on=b['comps'][-1],
-                    defined_for=[b['comps'][-1]])
+                    defined_for=[b['comps'][-1], b['nss'][-1]])
         pool.set_pool_details(Capacities(core=4))
         pools.add_pool(pool=pool)
         pools.build_index_by_delegation_id()
@@ -905,7 +913,7 @@ def drive_arm_adm_cbm(env, arm, b, d1, d2, want):
                                      (None, v('anymodel'))]):
         c = ComponentSliver()
         c.resource_name, c.resource_type, c.resource_model = f'c{i}', ct, model
-        ci.add_device(c)
+        ci.devices[c.resource_name] = c          # add_device() refuses a type-less request the query code supports
     call(cbm, 'get_matching_nodes_with_components', label=A.CLASS_NetworkNode, props=props, comps=ci)
     call(cbm, 'get_matching_nodes_with_components', label=A.CLASS_NetworkNode, props={}, comps=ci)
     for q in ('get_intersite_links', 'get_sites', 'get_disconnected_sites', 'get_connected_sites', 'get_facility_ports'):
@@ -956,6 +964,9 @@ def drive_topology(env):
 
 
 def one_case(ctx, cname, rng, index):
+    import uuid
+    # the library draws graph ids / file names from uuid4: make them a function of the case seed
+    uuid.uuid4 = lambda: uuid.UUID(int=rng.getrandbits(128), version=4)
     env = Env(ctx, rng, hostile=0.0 if index % 3 == 0 else 0.5)
     env.imp = imp = new_importer(reset_indexes=True)
     call(imp, 'delete_all_graphs')
@@ -1017,7 +1028,7 @@ def finish(ctx):
     ctx.info['primitive_calls'] = dict(sorted(M.prim_calls.items()))
     ctx.info['operations_that_raised'] = dict(sorted(M.op_raised.items()))
     ctx.info['captured_statements'] = len(M.hub.log)
-    ctx.info['distinct_statement_texts'] = 0
+    ctx.info['statement_templates'] = dict(sorted(M.templates.items()))
     if M.undriven_args:
         ctx.info['argument_kinds_not_varied'] = sorted(M.undriven_args)
     never = sorted(p for p in M.primitives if p not in M.prim_calls)
@@ -1038,7 +1049,7 @@ def run(ctx):
         return
     ctx.count('lexer-selftest')
     install(ctx)
-    ncases = ctx.pick(5, 40)
+    ncases = ctx.pick(10, 20)
     i = 0
     while i < ncases:
         # every shard sweeps all five classes first (deterministic, identical coverage table in every shard)
